@@ -4,6 +4,7 @@ package main
 
 import (
 	"fmt"
+	"go/types"
 	"sort"
 	"strings"
 
@@ -253,8 +254,46 @@ func appendCount(e *Env, v ssa.Value, rel *ssa.Phi, seen map[ssa.Value]bool, dep
 			}
 		}
 		return best, best < 1<<40
+	case *ssa.Parameter:
+		if a, pe := e.actual(x); a != nil {
+			return appendCount(pe, a, rel, seen, depth+1)
+		}
+	case *ssa.Extract:
+		if call, ok := x.Tuple.(*ssa.Call); ok {
+			return appendCountCall(e, call, x.Index, rel, seen, depth)
+		}
+	}
+	if call, ok := v.(*ssa.Call); ok {
+		return appendCountCall(e, call, 0, rel, seen, depth)
 	}
 	return 0, false
+}
+
+// appendCountCall: the list is result idx of a module helper that appends to a list it was handed (`args, err = h(args, …)`):
+// the least count over its successful returns.
+func appendCountCall(e *Env, call *ssa.Call, idx int, rel *ssa.Phi, seen map[ssa.Value]bool, depth int) (int64, bool) {
+	sc := call.Call.StaticCallee()
+	if sc == nil || len(sc.Blocks) == 0 || sc.Pkg == nil || !strings.HasPrefix(sc.Pkg.Pkg.Path(), modPath) || e.depth >= maxDepth {
+		return 0, false
+	}
+	sub := e.Sub(call, sc)
+	best := int64(1 << 40)
+	for _, r := range returnsOf(sc) {
+		if idx >= len(r.Results) {
+			return 0, false
+		}
+		if lastIsError(sc) && !isSuccessReturn(r) {
+			continue
+		}
+		n, ok := appendCount(sub, liveRetval(r, idx), rel, seen, depth+1)
+		if !ok {
+			return 0, false
+		}
+		if n < best {
+			best = n
+		}
+	}
+	return best, best < 1<<40
 }
 
 // spreadLen: lower bound of the number of elements appended by `append(x, v...)`.
@@ -350,9 +389,19 @@ func c01r3(c *Ctx) {
 								find(ed, d+1)
 							}
 						case *ssa.Call:
-							if len(y.Call.Args) > 0 {
-								find(y.Call.Args[0], d+1)
+							if _, isBuiltin := y.Call.Value.(*ssa.Builtin); isBuiltin {
+								if len(y.Call.Args) > 0 {
+									find(y.Call.Args[0], d+1)
+								}
+							} else {
+								for _, a := range y.Call.Args {
+									if a.Type().String() == "[][]byte" {
+										find(a, d+1)
+									}
+								}
 							}
+						case *ssa.Extract:
+							find(y.Tuple, d+1)
 						}
 					}
 					find(argsV, 0)
@@ -522,6 +571,16 @@ func dependsOn(v ssa.Value, target ssa.Value, seen map[ssa.Value]bool, d int) bo
 		if bi, ok := y.Call.Value.(*ssa.Builtin); ok && bi.Name() == "append" {
 			return dependsOn(y.Call.Args[0], target, seen, d+1)
 		}
+		// a module helper that is handed the list and returns it grown
+		if _, isBuiltin := y.Call.Value.(*ssa.Builtin); !isBuiltin {
+			for _, a := range y.Call.Args {
+				if types.Identical(a.Type(), target.Type()) && dependsOn(a, target, seen, d+1) {
+					return true
+				}
+			}
+		}
+	case *ssa.Extract:
+		return dependsOn(y.Tuple, target, seen, d+1)
 	}
 	return false
 }
